@@ -131,6 +131,30 @@ def _body(ctx, d):
     ctx.cls("mode_" + d["mode"])
     if changed:
         ctx.cls("status_changes")
+    # the same result objects judged under ANOTHER matching mode with the same threshold values must give what
+    # freshly built results give (TP / FN membership is a function of result, mode and threshold only)
+    thr = [float(x) for x in rows[0]]
+    all_modes = ["CENTERDISTANCE", "PLANEDISTANCE", "IOU2D", "IOU3D"] if d["dim"] == 3 else ["CENTERDISTANCE", "IOU2D"]
+    others = [m for m in all_modes if m != d["mode"] and (m in DIST or all(0.0 <= x <= 1.0 for x in thr))]
+    if others:
+        m2 = others[len(results) % len(others)]
+        d2 = dict(d, mode=m2)
+        reused = _evaluate(ctx, d2, results, gt, thr)
+        est_f, gt_f, tr_f = M.build(d)
+        fresh_results = M.call_matcher(ctx, d, est_f, gt_f, tr_f)
+        if reused is not None and fresh_results is not None:
+            fresh = _evaluate(ctx, d2, fresh_results, gt_f, thr)
+            if fresh is not None:
+                key_r = sorted(M.index_of(r.estimated_object, est) for r in reused["tp"])
+                key_f = sorted(M.index_of(r.estimated_object, est_f) for r in fresh["tp"])
+                ctx.cls("cross_mode_reuse")
+                ctx.require(
+                    key_r == key_f and len(reused["fn"]) == len(fresh["fn"]),
+                    "status-depends-on-earlier-queries",
+                    lambda: f"after judging the results under {d['mode']}, {m2} at {thr} gives TP estimates {key_r} / {len(reused['fn'])} FN; freshly built results give {key_f} / {len(fresh['fn'])} FN",
+                )
+                for x, y in zip(reused["ap"], fresh["ap"]):
+                    ctx.require((x == y) or abs(x - y) <= 1e-9, "ap-depends-on-earlier-queries", lambda: f"{m2} AP {reused['ap']} vs fresh {fresh['ap']}")
 
 
 @CHECK.given("frame3d", lambda tier: cases(tier, 3), quick=260, thorough=12000)
